@@ -24,13 +24,15 @@ theorem C15_update_event (s : TrkState) (m : Int) (attrs : List (String × Val))
     (h : (update s m attrs ts now).2.2 = true) :
     ∃ dels, (update s m attrs ts now).2.1 =
       ((if (s.tracks.find? (·.mmsi = m)).isSome then Ev.updated else Ev.created), m) :: dels ∧
-      ∀ e ∈ dels, e.1 = Ev.deleted := by
-  sorry
+      ∀ e ∈ dels, e.1 = Ev.deleted :=
+  ⟨(cleanup (Refine.insertState s m attrs ts) now).2,
+   (Refine.update_accepted' s m attrs ts now h).2,
+   Refine.cleanup_events_deleted _ now⟩
 
 /-- `pop_track` fires DELETED exactly once iff the track existed -/
 theorem C15_pop_event (s : TrkState) (m : Int) :
-    (popTrack s m).2.1 = if s.tracks.any (·.mmsi = m) then [(Ev.deleted, m)] else [] := by
-  sorry
+    (popTrack s m).2.1 = if s.tracks.any (·.mmsi = m) then [(Ev.deleted, m)] else [] :=
+  Refine.popTrack_events s m
 
 /-- non-vacuity: create, update, expire inside an update call, re-create -/
 example :
